@@ -125,6 +125,17 @@ func gen(r *hx.Rand, n int, tier string, emit func(string), st *hx.Stats) {
 		emit(c)
 		st.Inc("crafted")
 	}
+	// families aimed at the fast paths (see strategies.go): about a sixth of the budget
+	nb := n / 6
+	if nb < 12 {
+		nb = 12
+	}
+	for i := 0; i < nb; i++ {
+		c := r.Fork()
+		line, kind := genBiased(c, i)
+		emit(line)
+		st.Inc("biased:" + kind)
+	}
 	for i := 0; i < n; {
 		c := r.Fork()
 		m, ts := fga.GenModel(c, fga.DefaultOpts())
@@ -235,6 +246,19 @@ func exec(line string, st *hx.Stats) string {
 		}
 		sort.Strings(cs)
 		parts = append(parts, strat+":"+strings.Join(cs, "|"))
+	}
+	// exact correspondence of the strategy models: breadth limit 1, strategy forced, full outcome incl. error kind
+	for _, strat := range []string{"default", "weight2", "recursive"} {
+		seen := map[string]bool{}
+		for rep := 0; rep < 2; rep++ {
+			seen[class(fgarun.Check(ts, ds, fgarun.Config{MaxDepth: uint32(depth), Breadth: 1, Strategy: strat}, rq, ctxT, &fgarun.ForcedPlanner{Want: strat}))] = true
+		}
+		var cs []string
+		for c := range seen {
+			cs = append(cs, c)
+		}
+		sort.Strings(cs)
+		parts = append(parts, "b1"+strat+":"+strings.Join(cs, "|"))
 	}
 	off := fgarun.OfferedSnapshot(offered)
 	for _, o := range off {
